@@ -10,6 +10,18 @@ COMMON_NOTE = ("Trusted: Coq 8.16.1 kernel (vm_compute used, no native_compute);
                "driver + Rust harness. ")
 
 CLAIMS = {
+ "C03": dict(
+   text="c03_parsers_total (dlt_message with any filter and storage mode, dlt_consume_msg, skip_storage_header and dlt_zero_terminated_string never take a panic branch of the model, in which every checked subtraction and slice range of parse.rs is explicit), c03_results_usable (every returned message re-serialises without any of the `len as u16 + 1` / u16 header-sum overflows and each argument passes Argument::valid), c03_result_bounds (payload <= 65531, every name/unit/string/raw/slice <= 65515 bytes - the bound that makes the overflow sites unreachable, shown tight by an example), c03_parsed_arg_bounds and c03_construct_arguments_usable proved for ALL byte strings; tied to /repo by running the slice entry points under catch_unwind in a build with overflow checks on hostile inputs (mutated, truncated, length-corrupted, > 64 KiB) and using every returned message (as_bytes, byte_len, len, valid).",
+   note="forward_to_next_storage_header and construct_arguments return Option in the model: their slice bounds are guarded by explicit length checks that are part of the modelled text. Allocation failure and the trace!/dbg_parsed sites (only evaluated with a trace-level logger) are not modelled. Observation recorded in Properties/C03.v: the public construct_arguments called directly with > 64 KiB of data can return a 65535-byte string whose as_bytes overflows; unreachable from parsed messages.",
+   technique="Coq proof (no-panic by case analysis over the parser model; length bounds by consumption lemmas) + correspondence check under catch_unwind with overflow checks"),
+ "C07": dict(
+   text="c07_fragmentation / c07_fragmentation_cap: for EVERY schedule of read() results (fragment sizes and Interrupted placements), every byte stream, filter, storage mode and BufReader capacity, the model of DltMessageReader + std BufReader + read_exact delivers exactly spec_run = cut the stream at the declared lengths and parse each piece, and the loop ends within len+1 calls; c07_truncation (pieces completely inside a truncation point are delivered, then at most errors), c07_no_panic (incl. declared lengths below 4), c07_scratch_fits, c07_cuts_layout, c07_run_by_cuts; c07_pinned_refuted records the panic of the pre-repair code. Tied to /repo by driving the real DltMessageReader with a std::io::Read that follows the same (stream, schedule).",
+   note="PARTIAL in the sense of DESIGN section 9: the theorem is about a model of std::io::BufReader / Read::read_exact written from the standard-library source; what std and the OS do is exercised by the correspondence run, not proved. with_capacity(buffer_capacity < message_max_len) trips the crate's own debug_assert and is outside the claim.",
+   technique="Coq proof (refinement of a buffered-reader state machine to a cut-the-stream spec, induction over schedule and stream) + correspondence check with scheduled byte sources"),
+ "C08": dict(
+   text="c08_schedule: for every poll schedule (Pending runs, Ready(k) fragments), stream, filter and storage mode the model of DltStreamReader + futures BufReader + ReadExact delivers exactly what the blocking reader model delivers (= spec_run), and ends; c08_no_panic; c08_pinned_refuted. Tied to /repo by driving the real DltStreamReader under futures::executor::block_on with an AsyncRead following the same schedule, compared with the model and (oracle) with the real blocking reader.",
+   note="PARTIAL as named in DESIGN section 9: wakers, executors, cancellation and real async sources are not in the model; panic-freedom inside futures-util is trusted. Interrupted is not quantified for the async reader.",
+   technique="Coq proof (async reader model refines the same spec as the blocking one, for all poll schedules) + correspondence check under block_on"),
  "C04": dict(
    text="c04_message (every Ok result of dlt_message leaves exactly the input behind skip + storage header + declared LEN, LEN >= 4, never Invalid, FilteredOut carries LEN - headers), c04_consume, c04_filter_independent and c04_parse_all_terminates (repeated parsing never runs out of fuel = length+1) proved for all byte strings, filters and storage modes over the model of parse.rs; tied to /repo by ops 8/10/25 on hostile and dialect inputs with the consumed length compared and checked by an oracle against the length field.",
    note="Model covers parse.rs dlt_message/dlt_message_intern/dlt_payload/validated_payload_length/dlt_consume_msg/forward_to_next_storage_header and the nom 7.1.3 streaming combinators they use. memmem::Finder::find is modelled as first-occurrence search.",
